@@ -556,3 +556,174 @@ package middleware
 
 //@ func cantFindProducer
 //@ assigns \nothing
+
+// ---------------------------------------------------------------- dispatch (C01) and per-request state (C09)
+
+// the router is fed the request method and the cleaned, still percent-encoded path
+//@ func (*Context).LookupRoute
+//@ watch EP = call (*net/url.URL).EscapedPath
+//@ watch LK = invoke (middleware.Router).Lookup
+//@ requires c != nil && c.router != nil && request != nil && request.URL != nil
+//@ ensures [C01:escaped] calls(EP) == 1 && arg(EP,0,0) == old(request.URL) && calls(LK) == 1 && recv(LK,0) == c.router && arg(LK,0,0) == old(request.Method) && arg(LK,0,1) == ret(EP,0,0)
+//@ ensures [C01:result] (ret(LK,0,1) ==> result0 == ret(LK,0,0) && result1) && (!ret(LK,0,1) ==> result0 == nil && !result1)
+
+//@ func (*Context).AllowedMethods
+//@ watch EP = call (*net/url.URL).EscapedPath
+//@ watch OM = invoke (middleware.Router).OtherMethods
+//@ requires c != nil && c.router != nil && request != nil && request.URL != nil
+//@ ensures [C01:others] calls(EP) == 1 && arg(EP,0,0) == old(request.URL) && calls(OM) == 1 && recv(OM,0) == c.router && arg(OM,0,0) == old(request.Method) && arg(OM,0,1) == ret(EP,0,0) && result == ret(OM,0,0)
+
+// the router middleware: matched => next handler with the request that carries the route;
+// otherwise 405 with the methods under which the path does match, else 404; never both
+//@ func NewRouter$1
+//@ watch RI = call (*Context).RouteInfo
+//@ watch NX = invoke (net/http.Handler).ServeHTTP
+//@ watch AM = call (*Context).AllowedMethods
+//@ watch MA = call github.com/go-openapi/errors.MethodNotAllowed
+//@ watch NF = call github.com/go-openapi/errors.NotFound
+//@ watch RS = call (*Context).Respond
+//@ requires rw != nil && r != nil && r.URL != nil && ctx != nil && ctx.debugLogf != nil && ctx.api != nil && ctx.router != nil && ctx.analyzer != nil && next != nil
+//@ stable r.URL, r.Method
+//@ ensures [C01:lookup] calls(RI) == 1 && arg(RI,0,0) == ctx && arg(RI,0,1) == r
+//@ ensures [C01:dispatch] ret(RI,0,2) ==> calls(NX) == 1 && recv(NX,0) == next && arg(NX,0,0) == rw && arg(NX,0,1) == ret(RI,0,1) && calls(RS) == 0 && calls(AM) == 0
+//@ ensures [C01:nomatch] !ret(RI,0,2) ==> calls(NX) == 0 && calls(RS) == 1 && arg(RS,0,1) == rw && arg(RS,0,2) == r && arg(RS,0,4) == nil && calls(AM) == 1 && arg(AM,0,1) == r
+//@ ensures [C01:405] !ret(RI,0,2) && len(ret(AM,0,0)) > 0 ==> calls(MA) == 1 && arg(MA,0,0) == old(r.Method) && arg(MA,0,1) == ret(AM,0,0) && arg(RS,0,5) == boxof(ret(MA,0,0)) && calls(NF) == 0
+//@ ensures [C01:404] !ret(RI,0,2) && len(ret(AM,0,0)) == 0 ==> calls(NF) == 1 && arg(RS,0,5) == boxof(ret(NF,0,0)) && calls(MA) == 0
+
+// the operation executor hands the request to the handler registered on the matched route, once
+//@ func NewOperationExecutor$1
+//@ watch RI = call (*Context).RouteInfo
+//@ watch HD = invoke (net/http.Handler).ServeHTTP
+//@ assume after RI ret(RI,0,0) != nil && ret(RI,0,0).Handler != nil
+//@ requires r != nil && ctx != nil
+//@ ensures [C01:handler] calls(RI) == 1 && calls(HD) == 1 && recv(HD,0) == ret(RI,0,0).Handler && arg(HD,0,0) == rw && arg(HD,0,1) == (ret(RI,0,1) != nil ? ret(RI,0,1) : r)
+
+//@ func (RouteParams).GetOK
+//@ ensures [C01:byname] result1 <==> exists i int @try(rangeindex+1) :: 0 <= i && i < len(r) && r[i].Name == name
+//@ ensures [C01:first] result1 ==> len(result0) == 1 && exists i int @try(rangeindex+1) :: 0 <= i && i < len(r) && r[i].Name == name && result0[0] == r[i].Value && (result2 <==> r[i].Value != "") && forall j int :: 0 <= j && j < i ==> r[j].Name != name
+//@ ensures !result1 ==> len(result0) == 0 && !result2
+//@ loop 0 invariant forall j int :: 0 <= j && j <= rangeindex ==> r[j].Name != name
+
+//@ func (*Context).ResetAuth
+//@ watch WV = call context.WithValue
+//@ watch RW = call (*net/http.Request).WithContext
+//@ requires request != nil
+//@ ensures [C09:reset] calls(WV) == 2 && arg(WV,0,1) == boxof(ctxSecurityPrincipal) && arg(WV,0,2) == nil && arg(WV,1,0) == ret(WV,0,0) && arg(WV,1,1) == boxof(ctxSecurityScopes) && arg(WV,1,2) == nil && calls(RW) == 1 && arg(RW,0,0) == request && arg(RW,0,1) == ret(WV,1,0) && result == ret(RW,0,0)
+
+// a pattern fragment whose braces are balanced: every '{' is followed by a '}' (unfolding of the definition)
+//@ logic balancedBraces(string) bool
+//@ axiom [balancedBraces] forall p string :: balancedBraces(p) && strIndex(p, "{") >= 0 ==> strIndex(p, "}") > strIndex(p, "{") && balancedBraces(p[strIndex(p, "}")+1:])
+
+// decodeCompositParams: one name and one value are appended per placeholder of the
+// remaining pattern; it never panics (pattern braces balanced: spec well-formedness).
+//@ func decodeCompositParams
+//@ watch IX = call strings.Index
+//@ requires len(names) == len(values)
+//@ requires balancedBraces(pattern)
+//@ ensures [C01:pairs] len(result0) == len(result1) && len(result0) > len(names)
+
+// (*defaultRouter).Lookup: the trie router of the upper-cased method is asked for the
+// cleaned path; a hit yields a FRESH MatchedRoute holding a COPY of the registered entry
+// (no per-request field set) and the percent-decoded parameter values, by name, in order.
+//@ func (*defaultRouter).Lookup
+//@ watch TU = call strings.ToUpper
+//@ watch CL = call path.Clean
+//@ watch RL = call (*middleware/denco.Router).Lookup
+//@ watch PU = call net/url.PathUnescape tag rangeindex+1
+//@ watch DC = call decodeCompositParams
+//@ watch SP = call strings.Split
+//@ assume after SP balancedBraces(ret(SP,calls(SP)-1,0)[0])
+//@ requires d != nil && d.debugLogf != nil
+//@ requires forall k string :: in(k, d.routers) ==> d.routers[k] != nil
+//@ stable d.routers[*], comp:G!github.com/go-openapi/runtime/middleware.Debug
+//@ assume after RL ret(RL,0,2) && typeis(ret(RL,0,0), "*github.com/go-openapi/runtime/middleware.routeEntry") ==> nonnilptr(ret(RL,0,0))
+//@ ensures [C01:method] calls(TU) == 1 && arg(TU,0,0) == method
+//@ ensures [C01:nomethod] !in(ret(TU,0,0), d.routers) ==> result0 == nil && !result1 && calls(RL) == 0
+//@ ensures [C01:clean] in(ret(TU,0,0), d.routers) ==> calls(CL) == 1 && arg(CL,0,0) == path && calls(RL) == 1 && arg(RL,0,0) == d.routers[ret(TU,0,0)] && arg(RL,0,1) == ret(CL,0,0)
+//@ ensures [C01:miss] calls(RL) == 1 && !ret(RL,0,2) ==> result0 == nil && !result1
+//@ ensures [C01:hit] result1 ==> result0 != nil && calls(RL) == 1 && ret(RL,0,2) && typeis(ret(RL,0,0), "*github.com/go-openapi/runtime/middleware.routeEntry")
+//@ ensures [C09:fresh] result1 ==> fresh(result0) && result0.Consumer == nil && result0.Producer == nil && result0.Authenticator == nil
+//@ ensures [C01:entry] result1 ==> result0.Handler == unboxptr(ret(RL,0,0), "*routeEntry").Handler && result0.PathPattern == unboxptr(ret(RL,0,0), "*routeEntry").PathPattern && result0.Operation == unboxptr(ret(RL,0,0), "*routeEntry").Operation && result0.Consumers == unboxptr(ret(RL,0,0), "*routeEntry").Consumers && result0.Producers == unboxptr(ret(RL,0,0), "*routeEntry").Producers && result0.Binder == unboxptr(ret(RL,0,0), "*routeEntry").Binder && result0.Authenticators == unboxptr(ret(RL,0,0), "*routeEntry").Authenticators && result0.Authorizer == unboxptr(ret(RL,0,0), "*routeEntry").Authorizer && result0.Produces == unboxptr(ret(RL,0,0), "*routeEntry").Produces && result0.Consumes == unboxptr(ret(RL,0,0), "*routeEntry").Consumes
+//@ ensures [C01:decoded] result1 ==> forall i int :: 0 <= i && i < len(ret(RL,0,1)) ==> called(PU,i) && arg(PU,i,0) == ret(RL,0,1)[i].Value
+//@ loop 1 invariant calls(RL) == 1 && ret(RL,0,1) == rp && ret(RL,0,2) && calls(TU) == 1 && calls(CL) == 1 && (params == nil || fresh(params)) && calls(DC) >= 0
+//@ loop 1 invariant forall i int :: called(PU,i) ==> 0 <= i && i <= rangeindex
+//@ loop 1 invariant forall i int :: 0 <= i && i <= rangeindex ==> called(PU,i) && arg(PU,i,0) == rp[i].Value
+//@ loop 1 invariant calls(DC) == 0 ==> len(params) == rangeindex + 1 && forall i int :: 0 <= i && i <= rangeindex ==> params[i].Name == rp[i].Name && params[i].Value == (ret(PU,i,1) == nil ? ret(PU,i,0) : rp[i].Value)
+//@ loop 2 invariant calls(RL) == 1 && ret(RL,0,1) == rp && ret(RL,0,2) && calls(TU) == 1 && calls(CL) == 1 && (params == nil || fresh(params)) && calls(DC) >= 1
+//@ loop 2 invariant forall i int :: called(PU,i) ==> 0 <= i && i <= outer(rangeindex) + 1
+//@ loop 2 invariant forall i int :: 0 <= i && i <= outer(rangeindex) + 1 ==> called(PU,i) && arg(PU,i,0) == rp[i].Value
+//@ ensures [C01:params] result1 && calls(DC) == 0 ==> len(result0.Params) == len(ret(RL,0,1)) && forall i int :: 0 <= i && i < len(ret(RL,0,1)) ==> result0.Params[i].Name == ret(RL,0,1)[i].Name && result0.Params[i].Value == (ret(PU,i,1) == nil ? ret(PU,i,0) : ret(RL,0,1)[i].Value)
+
+// OtherMethods: exactly the registered methods other than the request's under which the
+// cleaned path is found (in map iteration order).
+//@ func (*defaultRouter).OtherMethods
+//@ watch TU = call strings.ToUpper
+//@ watch RL = call (*middleware/denco.Router).Lookup tag mappos-1
+//@ requires d != nil
+//@ requires forall k string :: in(k, d.routers) ==> d.routers[k] != nil
+//@ ensures [C01:sound] forall j int :: 0 <= j && j < len(result) ==> in(result[j], d.routers) && result[j] != ret(TU,0,0) && exists i int :: called(RL,i) && ret(RL,i,2) && arg(RL,i,0) == d.routers[result[j]]
+//@ ensures [C01:complete] forall k string :: in(k, d.routers) && k != ret(TU,0,0) ==> called(RL,mapidx(k)) && arg(RL,mapidx(k),0) == d.routers[k] && (ret(RL,mapidx(k),2) ==> exists j int :: 0 <= j && j < len(result) && result[j] == k)
+//@ assigns \nothing
+//@ loop 0 invariant calls(TU) == 1 && 0 <= mappos && mappos <= mapcard && (methods == nil || fresh(methods))
+//@ loop 0 invariant forall i int :: called(RL,i) ==> 0 <= i && i < mappos && mapkey(i) != ret(TU,0,0) && arg(RL,i,0) == d.routers[mapkey(i)]
+//@ loop 0 invariant forall i int :: 0 <= i && i < mappos && mapkey(i) != ret(TU,0,0) ==> called(RL,i)
+//@ loop 0 invariant forall i int :: 0 <= i && i < mappos && mapkey(i) != ret(TU,0,0) && ret(RL,i,2) ==> exists j int @try(len(methods)-1) :: 0 <= j && j < len(methods) && methods[j] == mapkey(i)
+//@ loop 0 invariant forall j int :: 0 <= j && j < len(methods) ==> exists i int @try(mappos-1) :: 0 <= i && i < mappos && methods[j] == mapkey(i) && mapkey(i) != ret(TU,0,0) && called(RL,i) && ret(RL,i,2)
+
+//@ func stringSliceUnion
+//@ assigns \nothing
+//@ loop 0 invariant result == nil || fresh(result)
+//@ loop 1 invariant result == nil || fresh(result)
+
+//@ func stringSliceIntersection
+//@ nooverflow
+//@ assigns \nothing
+//@ loop 0 invariant intersection == nil || fresh(intersection)
+//@ loop 1 invariant intersection == nil || fresh(intersection)
+
+//@ func (*defaultRouteBuilder).buildAuthenticators
+//@ watch SR = call (*github.com/go-openapi/analysis.Spec).SecurityRequirementsFor
+//@ requires d != nil && d.analyzer != nil && d.api != nil
+//@ ensures [C02:alternatives] calls(SR) == 1 && arg(SR,0,1) == operation
+//@ assigns \opaque
+//@ loop 0 invariant auths == nil || fresh(auths)
+//@ loop 1 invariant (auths == nil || fresh(auths)) && (schemes == nil || fresh(schemes)) && (scopeSlices == nil || fresh(scopeSlices)) && fresh(scopes)
+
+// AddRoute: registered only when the API has a handler for (method, path without base
+// path); the trie key is the path with {name}... rewritten to :name; the entry carries the
+// handler, the operation, consumers/producers of the (normalised) consumes/produces lists
+// to which the API defaults are added, and the route's authenticators.
+//@ func (*defaultRouteBuilder).AddRoute
+//@ watch TU = call strings.ToUpper
+//@ watch TP = call strings.TrimPrefix
+//@ watch HF = invoke (middleware.RoutableAPI).HandlerFor
+//@ watch DC = invoke (middleware.RoutableAPI).DefaultConsumes
+//@ watch DP = invoke (middleware.RoutableAPI).DefaultProduces
+//@ watch CI = call github.com/go-openapi/swag.ContainsStringsCI
+//@ watch NO = call normalizeOffers
+//@ watch CF = invoke (middleware.RoutableAPI).ConsumersFor
+//@ watch PF = invoke (middleware.RoutableAPI).ProducersFor
+//@ watch BA = call (*defaultRouteBuilder).buildAuthenticators
+//@ watch AZ = invoke (middleware.RoutableAPI).Authorizer
+//@ watch RA = call (*regexp.Regexp).ReplaceAllString
+//@ watch NR = call middleware/denco.NewRecord
+//@ requires d != nil && d.api != nil && d.analyzer != nil && d.spec != nil && d.debugLogf != nil && d.records != nil && operation != nil
+//@ stable comp:G!github.com/go-openapi/runtime/middleware.pathConverter
+//@ ensures [C01:method] calls(TU) == 1 && arg(TU,0,0) == method
+//@ ensures [C01:handlerfor] calls(HF) == 1 && recv(HF,0) == d.api && arg(HF,0,0) == method && calls(TP) >= 1 && arg(TP,0,0) == path && arg(HF,0,1) == ret(TP,0,0)
+//@ ensures [C01:unhandled] !ret(HF,0,1) ==> calls(NR) == 0
+//@ ensures [C01:key] ret(HF,0,1) ==> calls(RA) == 1 && arg(RA,0,1) == path && arg(RA,0,2) == ":$1" && calls(NR) == 1 && arg(NR,0,0) == ret(RA,0,0) && typeis(arg(NR,0,1), "*github.com/go-openapi/runtime/middleware.routeEntry")
+//@ ensures [C01:entry] ret(HF,0,1) ==> unboxptr(arg(NR,0,1), "*routeEntry").Handler == ret(HF,0,0) && unboxptr(arg(NR,0,1), "*routeEntry").PathPattern == path && unboxptr(arg(NR,0,1), "*routeEntry").Operation == operation
+//@ ensures [C19:maps] ret(HF,0,1) ==> calls(CF) == 1 && calls(PF) == 1 && calls(NO) == 2 && arg(CF,0,0) == ret(NO,0,0) && arg(PF,0,0) == ret(NO,1,0) && unboxptr(arg(NR,0,1), "*routeEntry").Consumers == ret(CF,0,0) && unboxptr(arg(NR,0,1), "*routeEntry").Producers == ret(PF,0,0) && arg(NO,0,0) == unboxptr(arg(NR,0,1), "*routeEntry").Consumes && arg(NO,1,0) == unboxptr(arg(NR,0,1), "*routeEntry").Produces
+//@ ensures [C02:auth] ret(HF,0,1) ==> calls(BA) == 1 && arg(BA,0,1) == operation && unboxptr(arg(NR,0,1), "*routeEntry").Authenticators == ret(BA,0,0) && calls(AZ) == 1 && unboxptr(arg(NR,0,1), "*routeEntry").Authorizer == ret(AZ,0,0)
+//@ ensures [C06:defaultconsumes] ret(HF,0,1) ==> calls(DC) == 1 && calls(DP) == 1 && (ret(DC,0,0) != "" ==> calls(CI) >= 1 && arg(CI,0,1) == ret(DC,0,0))
+
+// (trusted until parameter binding is under contract, see DESIGN.md C03)
+//@ func NewUntypedRequestBinder
+//@ trusted
+//@ ensures result != nil && fresh(result)
+//@ assigns \opaque
+
+//@ func (*UntypedRequestBinder).setDebugLogf
+//@ requires o != nil
+//@ assigns o.debugLogf, \opaque
